@@ -17,9 +17,10 @@ RULE = (
     "strict rejections (value, exceeded, subceeded, anticipated) produced by perturbing every size/count field and every "
     "constrained leaf of generated messages / structures / corpus packets, plus all small-alphabet strings for nested "
     "size-prefixed types; per rejection the remaining-bytes attribute is read once with bytes() and the conservation law is "
-    "checked; distinct = distinct (type/code, fault field, perturbation, error class) cases; the count of rejections whose "
+    "checked, and the rejection is repeated with the bytes supplied by another kind of source (generator, iterator, object with close(), file objects, hex front-end, bytes, bytearray, list - rotating) and must give the same class, remainder and event count; distinct = distinct (type/code, fault field, perturbation, error class) cases; the count of rejections whose "
     "expected remainder is empty (problem on the last byte) is reported"
 )
+OTHER_SOURCES = ("generator", "hexfront", "iter", "files", "closing", "bytes", "bytearray", "list")
 ASSUMPTIONS = ["offending bytes of an overrun = input from the end of the emitted fields to the declared end of the region the error names (region end from the reference, cross-checked with the error's own limit/counted figures)"]
 
 
@@ -45,6 +46,24 @@ def check(case, rec, tpm_type=None, P=None):
         rec.count("problem_on_last_byte")
     for rule, mech, msg in oracles.conservation_strict(case, ref, t):
         rec.violation(rule, mech, f"{case.short()}\n{msg}", case.replay())
+    # the same rejection with the bytes supplied by other kinds of sources (a generator, a plain iterator, an object
+    # with close(), file objects, the hex front-end): the error must account for the bytes in the same way
+    n = rec.counters.get("other_source_runs", 0)
+    kind = OTHER_SOURCES[n % len(OTHER_SOURCES)]
+    rec.count("other_source_runs")
+    rec.count(f"source_{kind}")
+    if kind == "hexfront":
+        from tpmstream.io.hex import Hex
+
+        t2 = TR.run(tpm_type or case.t, case.d, strict=True, cc=case.cc, enc=case.enc, front=Hex, container=case.d.hex().encode())
+    else:
+        t2 = TR.run(tpm_type or case.t, case.d, strict=True, cc=case.cc, enc=case.enc, source_kind=kind)
+    a, b = t.outcome, t2.outcome
+    same = a[0] == b[0] and (a[0] != "constraint" or (a[1]["cls"], a[1].get("rem")) == (b[1]["cls"], b[1].get("rem"))) and len(t.events) == len(t2.events)
+    if not same:
+        show = lambda o: (o[1]["cls"], o[1].get("rem").hex() if isinstance(o[1].get("rem"), bytes) else o[1].get("rem")) if o[0] == "constraint" else o[:1]
+        rep = dict(case.replay(), source=kind)
+        rec.violation("source-kind", f"{kind}:{cls}", f"{case.short()}\nfrom a counting iterator: {show(a)} after {len(t.events)} events; from source kind '{kind}': {show(b)} after {len(t2.events)} events", rep)
     rec.sample(dict(case=case.short(), error=cls, remaining=rem.hex()[:40] if isinstance(rem, bytes) else repr(rem)), bucket=f"sample_{cls}", cap=2)
 
 
@@ -73,7 +92,7 @@ def run_shard(shard, rec):
 
 def finish(m, tier):
     inc = []
-    for k in ("err_ValueConstraintViolatedError", "err_SizeConstraintExceededError", "err_SizeConstraintSubceededError",
+    for k in ("source_generator", "source_hexfront", "source_files", "source_closing", "err_ValueConstraintViolatedError", "err_SizeConstraintExceededError", "err_SizeConstraintSubceededError",
               "err_AnticipatedSizeConstraintExceededError", "problem_on_last_byte"):
         if not m["counters"].get(k):
             inc.append(f"no case of {k}")
